@@ -29,6 +29,7 @@ import comp_common as cc
 import comp_matrix as mx
 import c11_fx
 import extract_fx
+import extract_c11_state
 
 NONSEP = {"HUE", "SATURATION", "COLOR", "LUMINOSITY", "DARKER_COLOR", "LIGHTER_COLOR"}
 FIXTURE_AREA = 1100 * 1100
@@ -519,7 +520,9 @@ def repeat_stream(ctx, pools):
 # ------------------------------------------------------------------------------------------
 def run(ctx: core.Run):
     ctx.regenerate(extract_fx.gen_composite_fx)
-    ctx.prove(["PsdVerif.Props.C11", "PsdVerif.Props.C11Fx"])
+    # what in the read path of the compositor outlives a call, and what `paste` hands back (Generated/CompState.lean)
+    ctx.regenerate(extract_c11_state.gen_comp_state)
+    ctx.prove(["PsdVerif.Props.C11", "PsdVerif.Props.C11Fx", "PsdVerif.Props.C11State"])
     st = {"unstable_px": 0, "px": 0, "spec_da": 0.0, "spec_dc": 0.0, "corr_da": 0.0, "corr_dc": 0.0}
     corpus = json.loads((core.VERIF / "harness" / "corpus" / "C11.json").read_text())
     process(ctx, [case_from_json(j) for j in corpus], st, "corpus")
@@ -592,6 +595,8 @@ def run(ctx: core.Run):
         "Model/Blend.lean (C12) instantiates the blend table",
         "harness/comp_common.py: extraction of the per-pixel tree through the public getters; the float64 oracle of the published model",
         "harness/pixdoc.py builds documents from low-level records; they are serialised and re-read by the library before use",
+        "harness/extract_c11_state.py: syntactic reader of stores that outlive a call in composite/*.py and api/numpy_io.py and of the "
+        "returns of paste (Generated/CompState.lean); the model is stateless by construction, this ties that to the source",
     ]
     ctx.assumptions += [
         "float32 arithmetic of NumPy stays within 2e-4 (shape, alpha) / 1e-3 (premultiplied colour) of exact arithmetic on these documents "
@@ -618,7 +623,7 @@ def run(ctx: core.Run):
     }
     ctx.notes += NOTES + c11_fx.NOTES
     if ctx.tier == "thorough":
-        ctx.recheck(["PsdVerif.Props.C11", "PsdVerif.Props.C11Fx"])
+        ctx.recheck(["PsdVerif.Props.C11", "PsdVerif.Props.C11Fx", "PsdVerif.Props.C11State"])
 
 
 KNOCKOUT_SIG = "C11/knockout/group-alpha/white-over-white"
